@@ -41,7 +41,7 @@ func (S) Level() string { return "fault_enumeration" }
 func (S) Info() scen.Info {
 	return scen.Info{
 		Rule: "unit = seeded (DAG of 1-10 blocks with shared, repeated and dangling links; selector built with the repository's selector builder). Per unit: the unrestricted WalkAdv trace W0 (V visits, K block loads) is recorded, then one run per control position: NodeBudget 0..V+1, LinkBudget 0..K+1, StartAtPath = path of every visit (as Path and re-parsed from its string), SkipMe for every distinct link and seeded subsets, LinkVisitOnlyOnce, budget-then-resume for every N, each also under WalkMatching; the transforming walk under NodeBudget 0..V+1 (callbacks must be a prefix of the unrestricted run's, with a budget error whenever the budget is smaller than the number of callbacks); in half of the units the store offers only Has/Get, so blocks and SkipMe travel through storage.GetStream's fallback. " +
-			"distinct_nontrivial counts distinct hash(W0 shape, control, position, outcome) over runs whose control actually cut the walk (restricted trace != W0).",
+			"distinct_nontrivial counts distinct hash(W0 shape, control, position, outcome) over runs whose control actually cut the walk (restricted trace != W0). Later additions: redirect blocks; under WalkTransforming visit-once, every link budget and a loader skipping each link; Focus / Get / FocusedTransform along visited paths under node and link budgets.",
 		DistinctSet: "cut",
 		Assumptions: []string{
 			"the oracle is the same code's unrestricted run; selector semantics themselves are C07 (not claimed)",
